@@ -171,8 +171,12 @@ type c17Frag struct {
 
 func c17Operand(r *fw.Rand) (string, string) {
 	n := 1 + r.Intn(9)
-	if r.Bool() {
+	switch r.Intn(4) {
+	case 0, 1:
 		return fmt.Sprintf("E%d", n), fmt.Sprintf("re|E%d|%d", n, n)
+	case 2:
+		// second alternative of a regex with a top-level alternation: K(\d+)|J(\d+)
+		return fmt.Sprintf("J%d", n), fmt.Sprintf("alt|J%d|%d", n, n)
 	}
 	return fmt.Sprintf("X%d!", n), fmt.Sprintf("st|X%d!|%d", n, n)
 }
@@ -253,7 +257,7 @@ func c17Match(w *fw.W, idx int, r *fw.Rand) {
 	tail := ""
 	if r.P(1, 4) {
 		t, _ := c17Operand(r)
-		tail = r.Pick([]string{" reason " + t, "\n[" + t + ", 1", " 理由" + t, " (" + t})
+		tail = r.Pick([]string{" reason " + t, "\n[" + t + ", 1", " 理由" + t, " (" + t, " " + t, "  " + t + " +", " 。" + t})
 		src += "; 7" // a block statement needs no separator before the next statement, so end with an expression
 	}
 	desc := fmt.Sprintf("src=%q tail=%q", src, tail)
@@ -265,10 +269,16 @@ func c17Match(w *fw.W, idx int, r *fw.Rand) {
 	cfg.Seed = r.U64() | 1
 	cfg.OpLimit = 30000
 	vm := cfg.NewVM()
+	pooled := r.Bool() // a handler that reuses one result object for every call
+	pool := ds.NewIntVal(0)
 	regRe := func() {
 		_ = vm.RegCustomDice(`E(\d+)`, func(ctx *ds.Context, groups []string, _ any) (*ds.VMValue, string, error) {
 			log = append(log, "re|"+groups[0]+"|"+groups[1])
 			k, _ := strconv.Atoi(groups[1])
+			if pooled {
+				pool.Value = ds.IntType(k)
+				return pool, "", nil
+			}
 			v := ds.NewIntVal(ds.IntType(k))
 			returned = append(returned, v)
 			snapshots = append(snapshots, Canon(v))
@@ -305,14 +315,32 @@ func c17Match(w *fw.W, idx int, r *fw.Rand) {
 			return v, "", nil
 		})
 	}
+	regAlt := func() {
+		_ = vm.RegCustomDice(`K(\d+)|J(\d+)`, func(ctx *ds.Context, groups []string, _ any) (*ds.VMValue, string, error) {
+			num := groups[1]
+			if num == "" && len(groups) > 2 {
+				num = groups[2]
+			}
+			log = append(log, "alt|"+groups[0]+"|"+num)
+			k, _ := strconv.Atoi(num)
+			if pooled {
+				pool.Value = ds.IntType(k)
+				return pool, "", nil
+			}
+			v := ds.NewIntVal(ds.IntType(k))
+			returned = append(returned, v)
+			snapshots = append(snapshots, Canon(v))
+			return v, "", nil
+		})
+	}
 	regNever := func() {
 		_ = vm.RegCustomDice(`ZZZ(\d+)QQ`, func(ctx *ds.Context, groups []string, _ any) (*ds.VMValue, string, error) {
 			log = append(log, "never-matching handler called")
 			return ds.NewIntVal(0), "", nil
 		})
 	}
-	regs := []func(){regRe, regStream, regNever}
-	for _, i := range r.Perm(3) {
+	regs := []func(){regRe, regStream, regNever, regAlt}
+	for _, i := range r.Perm(4) {
 		regs[i]()
 	}
 	var err error
@@ -341,6 +369,21 @@ func c17Match(w *fw.W, idx int, r *fw.Rand) {
 		if Canon(v) != snapshots[i] {
 			w.Violate(idx, "extension", "ext|match|handler-value-modified", desc, fmt.Sprintf("handler value %s became %s", snapshots[i], Canon(v)), nil)
 		}
+	}
+	// the value recorded for each custom operand (spans of the top-level program) is that
+	// operand's own value, whatever the handler does with its result object afterwards
+	for _, s := range vm.DetailSpans {
+		if s.Tag != "dice-custom" || s.Ret == nil {
+			continue
+		}
+		txt := (src + tail)[s.Begin:minInt(int(s.End), len(src+tail))]
+		digits := strings.TrimRight(strings.TrimLeft(txt, "EXJK"), "!")
+		want, err := strconv.Atoi(digits)
+		got, ok := s.Ret.ReadInt()
+		if err == nil && (!ok || int(got) != want) {
+			w.Violate(idx, "extension", "ext|match|span-value", desc, fmt.Sprintf("operand %q is recorded with value %s (pooled handler result: %v)", txt, s.Ret.ToRepr(), pooled), nil)
+		}
+		w.Count("custom_spans_checked", 1)
 	}
 	w.Count("handler_invocations", int64(len(log)))
 	w.Note(fw.Hash64(desc))
